@@ -1,8 +1,6 @@
 package object
 
 import (
-	"fmt"
-
 	"github.com/risor-io/risor/errz"
 	"github.com/risor-io/risor/op"
 )
@@ -19,7 +17,7 @@ func (e *Entry) Type() Type {
 }
 
 func (e *Entry) Inspect() string {
-	return fmt.Sprintf("iter_entry(%s, %s)", e.key.Inspect(), e.value.Inspect())
+	return e.inspectVisit(newInspectVisit())
 }
 
 func (e *Entry) Interface() interface{} {
